@@ -519,14 +519,17 @@ def {}():
                     top._dag.all_constraints.add( (v, blk) )
 
             else:
-              if v in method_blks:
+              # The blocks associated with v are the blocks that call v or
+              # any method in v's equivalence class (M(v) == M(vv))
+              for vv in ( equiv[v] if v in equiv else (v,) ):
+                if vv not in method_blks: continue
                 # TODO Now I'm leaving incomplete dependency chain because I didn't close the circuit loop.
                 # E.g. I do port.wr() somewhere in __main__ to write to a port.
 
                 # Find total constraint (vb < blk) by vb=method_v < method_u=blk
                 # INVALID if we have explicit constraint (blk < method_v) or (method_u < vb)
 
-                v_blks = method_blks[ v ]
+                v_blks = method_blks[ vv ]
                 for vb in v_blks:
                   if vb not in succ[u]:
                     for blk in assoc_blks:
@@ -557,7 +560,10 @@ def {}():
                     top._dag.all_constraints.add( (blk, v) )
 
             else:
-              if v in method_blks:
+              # The blocks associated with v are the blocks that call v or
+              # any method in v's equivalence class (M(v) == M(vv))
+              for vv in ( equiv[v] if v in equiv else (v,) ):
+                if vv not in method_blks: continue
                 # assert v in method_blks, "Incomplete elaboration, something is wrong! %s" % hex(v)
                 # TODO Now I'm leaving incomplete dependency chain because I didn't close the circuit loop.
                 # E.g. I do port.wr() somewhere in __main__ to write to a port.
@@ -565,7 +571,7 @@ def {}():
                 # Find total constraint (blk < vb) by blk=method_u < method_v=vb
                 # INVALID if we have explicit constraint (vb < method_u) or (method_v < blk)
 
-                v_blks = method_blks[ v ]
+                v_blks = method_blks[ vv ]
                 for vb in v_blks:
                   if not vb in pred[u]:
                     for blk in assoc_blks:
